@@ -225,7 +225,7 @@ pub fn generate(seed: u64, knobs: &Knobs) -> C10Scenario {
         knobs.layer == Layer::L1,
         backend,
     );
-    if knobs.layer == Layer::L2 {
+    if knobs.layer != Layer::L1 {
         invocation.opts.generator_override = None;
     }
     let mut include_deps: Option<std::collections::BTreeMap<String, Vec<String>>> = None;
@@ -727,7 +727,12 @@ pub fn generate(seed: u64, knobs: &Knobs) -> C10Scenario {
             }
             94 => {
                 // the output of a removed source cannot be removed (one failing `remove`)
-                if world.input_is_file || world.sources.len() < 2 || !sim || !knobs.allow_faults {
+                if world.input_is_file
+                    || world.sources.len() < 2
+                    || !sim
+                    || !knobs.allow_faults
+                    || knobs.layer == Layer::LW
+                {
                     continue;
                 }
                 let i = rh.below(world.sources.len());
@@ -820,7 +825,7 @@ pub fn generate(seed: u64, knobs: &Knobs) -> C10Scenario {
             }
             _ => {
                 // injected I/O faults during the next pass, then recovery
-                if !knobs.allow_faults || !sim || world.sources.is_empty() {
+                if !knobs.allow_faults || !sim || world.sources.is_empty() || knobs.layer == Layer::LW {
                     continue;
                 }
                 let i = rf.below(world.sources.len());
